@@ -285,7 +285,7 @@ def run(ctx):
                f"coordinates are overwritten in place at {bad[:3]} (cached densities would go stale)")
     ctx.count("functions_scanned", sum(1 for _ in repo.all_functions()))
 
-    own_rule(ctx)
+    own_rule(ctx, fields=DENSITY_FIELDS)
     pool_rule(ctx)
     from . import cachecoh
     cachecoh.rule(ctx, "C10.stale", ("aspire.flows", "aspire.samples", "aspire.transforms", "aspire.samplers"),
@@ -333,8 +333,13 @@ def pool_rule(ctx):
                f"unordered pool primitive used at {bad[:2]}: results arrive in completion order", disc="unordered")
 
 
-def own_rule(ctx, only_module: str | None = None, rule: str = "C10.own"):
-    """Who may write into an array: only its owner (rules/own.py)."""
+DENSITY_FIELDS = ("x", "log_likelihood", "log_prior", "log_q")
+
+
+def own_rule(ctx, only_module: str | None = None, rule: str = "C10.own", fields=None):
+    """Who may write into an array: only its owner (rules/own.py).  *fields*: only writes through a local known to
+    alias one of these attributes (or of unknown origin) are judged -- C10 cares about coordinates and cached
+    densities, C02 about the stored weights."""
     from . import own
     repo = ctx.repo
     PRIMITIVE = "aspire.utils:update_at_indices"  # the write primitive itself; every caller is checked instead
@@ -342,9 +347,11 @@ def own_rule(ctx, only_module: str | None = None, rule: str = "C10.own"):
     for f in repo.all_functions():
         if f.ident == PRIMITIVE or (only_module is not None and not f.ident.startswith(only_module + ":")):
             continue
-        for node, desc, st, name in own.analyse(f):
+        for node, desc, st, name, origin in own.analyse(f, with_origin=True):
             if st == own.ELEMENT:
                 continue  # an item of a container (e.g. an HDF5 dataset looked up by name): not an array of the caller's
+            if fields is not None and origin is not None and origin not in fields:
+                continue
             n_sinks += 1
             ctx.decide(st == own.OWNED, rule, f.ident, loc_of(f, node), f"{desc}: the array written into was created in this function (copy / new array)",
                        f"{desc} writes into `{name}`, which may be (a view of) an argument or attribute: the caller's array -- e.g. the coordinates of a population whose "
